@@ -45,7 +45,7 @@ fn residues() -> Vec<Vec<u8>> {
     v
 }
 /// RFC 4034 type bitmap
-fn bitmap(types: &[u16]) -> Vec<u8> {
+pub fn bitmap(types: &[u16]) -> Vec<u8> {
     let mut v = vec![];
     let mut ts = types.to_vec();
     ts.sort();
@@ -193,4 +193,87 @@ pub fn type_table() -> Vec<TypeCase> {
     // unknown type: RFC 3597 generic form
     table.push(TypeCase { rtype: 65280, name: "TYPE65280", variants: vec![vec![], vec![0], vec![0xff, 0], bytes(5, 2), bytes(40, 2)] });
     table
+}
+
+// ---------------------------------------------------------------------------
+// Restricted-alphabet token fields (Presentation.tla "Field kinds"): the
+// carrier records built through their *constructors* (the specification's
+// Admitted(kind, v) is what the constructors and the wire parser admit).
+pub type FieldData = domain::rdata::ZoneRecordData<bytes::Bytes, domain::base::name::Name<bytes::Bytes>>;
+
+/// The types of an RFC 4034 bitmap, ascending.
+pub fn bitmap_types(mut w: &[u8]) -> Option<Vec<u16>> {
+    let mut out = vec![];
+    while !w.is_empty() {
+        if w.len() < 2 { return None; }
+        let (win, n) = (w[0] as u16, w[1] as usize);
+        if n == 0 || n > 32 || w.len() < 2 + n { return None; }
+        for (i, b) in w[2..2 + n].iter().enumerate() {
+            for bit in 0..8 { if b & (0x80 >> bit) != 0 { out.push(win * 256 + (i * 8 + bit) as u16); } }
+        }
+        w = &w[2 + n..];
+    }
+    Some(out)
+}
+
+/// Record data of a carrier type from its field values, through the typed
+/// constructors.  None: not a carrier type.  Some(Err): a constructor
+/// refuses the value (or the constructors of one field disagree).
+pub fn typed_fields(rtype: u16, rdata: &[u8]) -> Option<Result<FieldData, String>> {
+    use bytes::Bytes;
+    use domain::base::charstr::CharStr;
+    use domain::base::iana::{Nsec3HashAlgorithm, Rtype, TlsaCertificateUsage, TlsaMatchingType, TlsaSelector};
+    use domain::base::name::Name;
+    use domain::rdata::caa::{Caa, CaaFlags, CaaTag};
+    use domain::rdata::dnssec::{Nsec, RtypeBitmapBuilder};
+    use domain::rdata::nsec3::{Nsec3Salt, Nsec3param};
+    use domain::rdata::tlsa::Tlsa;
+    let e = |s: &str| Some(Err(s.to_string()));
+    match rtype {
+        257 => {
+            if rdata.len() < 2 || rdata.len() < 2 + rdata[1] as usize { return e("short"); }
+            let n = rdata[1] as usize;
+            let (tag, val) = (&rdata[2..2 + n], &rdata[2 + n..]);
+            // the three checked constructors of a tag agree
+            let a = CaaTag::from_octets(Bytes::copy_from_slice(tag));
+            let b = CharStr::from_octets(Bytes::copy_from_slice(tag)).map_err(|x| x.to_string())
+                .and_then(|c| CaaTag::new(c).map_err(|x| x.to_string()));
+            let c = CaaTag::<[u8]>::from_slice(tag).map(|_| ());
+            if a.is_ok() != b.is_ok() || a.is_ok() != c.is_ok() { return e("CaaTag constructors disagree"); }
+            let t = match a { Ok(t) => t, Err(x) => return Some(Err(x.to_string())) };
+            if let Ok(b) = b {
+                if b != t || t.to_string().as_bytes() != tag { return e("CaaTag constructors build different tags"); }
+            }
+            let caa = Caa::new(CaaFlags::new(rdata[0]), t, Bytes::copy_from_slice(val));
+            if caa.flags().bits() != rdata[0] || &caa.value()[..] != val { return e("Caa getters"); }
+            Some(Ok(FieldData::from(caa)))
+        }
+        52 => {
+            if rdata.len() < 3 { return e("short"); }
+            Some(Ok(FieldData::from(Tlsa::new(TlsaCertificateUsage::from_int(rdata[0]), TlsaSelector::from_int(rdata[1]),
+                TlsaMatchingType::from_int(rdata[2]), Bytes::copy_from_slice(&rdata[3..])))))
+        }
+        51 => {
+            if rdata.len() < 5 || rdata.len() != 5 + rdata[4] as usize { return e("short"); }
+            let salt = match Nsec3Salt::from_octets(Bytes::copy_from_slice(&rdata[5..])) { Ok(s) => s, Err(x) => return Some(Err(x.to_string())) };
+            Some(Ok(FieldData::from(Nsec3param::new(Nsec3HashAlgorithm::from_int(rdata[0]), rdata[1],
+                u16::from_be_bytes([rdata[2], rdata[3]]), salt))))
+        }
+        47 => {
+            let mut end = 0;
+            while end < rdata.len() && rdata[end] != 0 { end += 1 + rdata[end] as usize; }
+            if end >= rdata.len() { return e("short"); }
+            end += 1;
+            let next = match Name::<Bytes>::from_octets(Bytes::copy_from_slice(&rdata[..end])) { Ok(n) => n, Err(x) => return Some(Err(x.to_string())) };
+            let types = match bitmap_types(&rdata[end..]) { Some(t) => t, None => return e("bitmap") };
+            let mut b = RtypeBitmapBuilder::new_vec();
+            // added in descending order: the builder keeps the wire form sorted
+            for t in types.iter().rev() { if b.add(Rtype::from_int(*t)).is_err() { return e("bitmap builder"); } }
+            let bm = b.finalize();
+            if types.iter().any(|t| !bm.contains(Rtype::from_int(*t))) || bm.iter().count() != types.len() { return e("bitmap contents"); }
+            let bm = match domain::rdata::dnssec::RtypeBitmap::from_octets(Bytes::from(bm.as_slice().to_vec())) { Ok(x) => x, Err(x) => return Some(Err(x.to_string())) };
+            Some(Ok(FieldData::from(Nsec::new(next, bm))))
+        }
+        _ => None,
+    }
 }
